@@ -470,6 +470,9 @@ def check(ctx):
         if "h18." in o:
             feat["tx_complete"] += 1
     fs["features"] = feat
+    # ---- (3) leaf components with their own models (base64, Authorization, Cookie): library vs model vs property-text reference
+    import c01_leaves
+    c01_leaves.check_leaves(ctx)
     # ---- known findings: the listed witnesses are replayed on every run
     W = cp.witnesses()
     exe = vf.impl_driver(ctx, "san")
@@ -506,12 +509,12 @@ def check(ctx):
             "OK/DECLINED/STOP/ERROR/register/destroy at every hook, all personalities) run on the library under ASan+UBSan+LSan and on the extracted model, compared on the "
             "whole output line, fault flag vs sanitizer; + %d histories on the library alone with decompression, cookies, authorization, urlencoded and multipart switched "
             "on; per case: no sanitizer report, the call returns, live heap bytes return to the starting value after destroy. distinct_nontrivial = distinct return-code "
-            "sequences." % (ncases, nf))
+            "sequences + distinct leaf output classes. Leaves: " % (ncases, nf)) + c01_leaves.LEAVES_RULE
     return vf.standard_epilogue(ctx, pr, "make Props/Properties_C01.vo + ./check C01", rule,
                                 ["memory safety proper is decided on the library by the sanitizers (a search); the theorems bound cursors, buffers and ownership in the model",
                                  "the model does not cover decompression, cookies, authorization, content handlers: those run on the library alone",
                                  "allocation failure inside the connection parser is covered by C18 (fault injection), not here",
-                                 "callbacks are the 21 scripted ones of the driver; the destroy action is htp_tx_destroy on the callback's transaction"])
+                                 "callbacks are the 21 scripted ones of the driver; the destroy action is htp_tx_destroy on the callback's transaction"] + c01_leaves.LEAVES_ASSUMPTIONS)
 
 
 def replay(ctx, path):
